@@ -119,12 +119,12 @@ def export(spec, raise_reserved=True, ctx=None):
     buf = io.StringIO()
     with warnings.catch_warnings():
         warnings.simplefilter("ignore")
-        collection_to_gff3([coll], buf, add_sequences=spec["fasta"], chromosome_relative_coordinates=not spec["chunk_mode"],
+        collection_to_gff3(as_container([coll], spec.get("container", "list")), buf, add_sequences=spec["fasta"], chromosome_relative_coordinates=not spec["chunk_mode"],
                            raise_on_reserved_attributes=raise_reserved)
         if ctx is not None:
             # writing the same collection object a second time gives the same file
             buf2 = io.StringIO()
-            collection_to_gff3([coll], buf2, add_sequences=spec["fasta"], chromosome_relative_coordinates=not spec["chunk_mode"],
+            collection_to_gff3(as_container([coll], spec.get("container", "list")), buf2, add_sequences=spec["fasta"], chromosome_relative_coordinates=not spec["chunk_mode"],
                                raise_on_reserved_attributes=raise_reserved)
             ctx.true("second_export_same_file", buf2.getvalue() == buf.getvalue(), {"first": buf.getvalue()[:300], "second": buf2.getvalue()[:300]})
     return coll, buf.getvalue()
@@ -401,9 +401,11 @@ def normalize_ids(text):
 
 
 def parse_text(text, fasta):
-    fd, path = tempfile.mkstemp(suffix=".gff3", prefix="verif_c11_")
+    # one scratch path per process, rewritten for every case: a round trip through "the" working file is the ordinary way to use a
+    # parser, and nothing about a path may be remembered across parses
+    path = os.path.join(tempfile.gettempdir(), "verif_c11_%d.gff3" % os.getpid())
     try:
-        with os.fdopen(fd, "w") as fh:
+        with open(path, "w") as fh:
             fh.write(text)
         fn = parse_gff3_embedded_fasta if fasta else parse_standard_gff3
         with warnings.catch_warnings():
@@ -657,7 +659,8 @@ def strat_syntax(draw, tier="quick"):
         for f in c["features"]:
             f["qualifiers"] = draw(qs)
     n = hi + draw(st.integers(1, 6))
-    sp = {"obj": o, "genome": draw(S.dna(n, n)), "fasta": draw(st.booleans()), "raise_reserved": draw(st.booleans())}
+    sp = {"obj": o, "genome": draw(S.dna(n, n)), "fasta": draw(st.booleans()), "raise_reserved": draw(st.booleans()),
+          "container": draw(st.sampled_from(["list", "list", "tuple", "generator", "iterator"]))}
     lo = min([t["exons"][0][0] for g in o["genes"] for t in g["transcripts"]] + [f["blocks"][0][0] for c in o["feature_collections"] for f in c["features"]])
     r = draw(st.integers(0, 5))
     if r == 0:
